@@ -23,12 +23,20 @@ RULE = ("(a) constructor round-trips of named_vector / named_covariance / make_r
         "names, unequal noises): score before fit and the fitted noises read back by name agree with the name-ordered declaration; "
         "(d) fixed stream from-data-same-count: arrays holding the right NUMBER of values in the wrong shape (row / flat / block / extra axis "
         "for vectors, column / flat / row for covariances; on bare named types and on a compiled filter's State, Control, Covariance and "
-        "make_reading(data=)) are rejected, and the exact shape is accepted with every value read back under its own name")
+        "make_reading(data=)) are rejected, and the exact shape is accepted with every value read back under its own name; "
+        "(e) fixed stream numbered-names-cpp: one fixed model over letters-only names and its twins under renamings to NUMBERED names whose "
+        "plain string order differs from their numeric order (p1/p2/p10, u2/u10, k9/k10, x_9/x_10/x_100, c2b/c10b) through the generated C++: "
+        "a value given to StateOptions / ControlOptions / CalibrationOptions under a name is the value the accessor of that name reads and "
+        "the value the model uses for that symbol (exact rational evaluation of the model, one role varied at a time), and every named "
+        "output of predict / update agrees with the letters-only original")
 NOTE = ["renaming invariance is a theorem about the model (C13.rename_invariant, via the by-name refinement of C01); the harness checks the "
         "implementation's named outputs for original vs twin directly (oracle) and against the Lean model",
         "fit-declaration-order is metamorphic (the name-ordered declaration is the reference; a reference fit that does not converge is "
         "counted and skipped); from-data-same-count uses the statement itself as the oracle (shape equality, values by name); neither "
-        "draws from the shared random stream"]
+        "draws from the shared random stream",
+        "numbered-names-cpp: the oracle for the model value is exact sympy arithmetic on the definition (independent of the library); the "
+        "other named outputs are compared with the letters-only original (metamorphic); inputs are fixed, a private generator only "
+        "shuffles declaration order"]
 PARTIAL = ["C++ side observed through g++ and the Eigen stand-in"]
 
 
@@ -428,6 +436,119 @@ def from_data_same_count(ctx, drv=None, pending=None):
         probe(f"make_reading({key}, data=)", "vector", ekf.sensor_models[key].Reading, lambda data, key=key: ekf.make_reading(key, data=data), fk.by_name)
 
 
+def numbered_names_cpp(ctx):
+    """names that end in (or contain) digit runs of different length sort differently as strings and as numbers (p10 < p2 but 2 < 10);
+    whichever order the layout uses, a value handed over under a name (the <T>Options constructors of the generated C++) is the value
+    read back under that name and the value the model uses for that symbol"""
+    import random
+    from sympy import Rational as Q, Symbol
+    prng = random.Random(1313)
+    dt = Symbol("dt")
+    pa, pb, pc, ua, ub, ka, kb = [Symbol(x) for x in ("pa", "pb", "pc", "ua", "ub", "ka", "kb")]
+    d0 = gen.Definition(dt, [pa, pb, pc], [ua, ub], [ka, kb],
+                        {pa: pa + 2 * dt * ua + 3 * ka + pb * pc / 4,
+                         pb: pb + 3 * dt * ub + 5 * kb - pa / 2,
+                         pc: pc + dt * (ua - 2 * ub) + 7 * kb * ka + pa * pa / 8},
+                        {"simple": {"r2": pa + 2 * pc, "r10": pb - ka + pc * pa / 2}})
+    d0._kind = "ekf"
+    ident = {x.name: x.name for x in d0.all_symbols()}
+    renamings = [("letters", ident),
+                 ("suffix-digits", {"pa": "p1", "pb": "p2", "pc": "p10", "ua": "u2", "ub": "u10", "ka": "k9", "kb": "k10"}),
+                 ("underscore-and-infix-digits", {"pa": "x_10", "pb": "x_9", "pc": "x_100", "ua": "U7", "ub": "U12", "ka": "c2b", "kb": "c10b"})]
+    process, sensor = {"ua": F(1, 2), "ub": F(9, 4)}, {"simple": {"r2": F(3, 8), "r10": F(5, 2)}}
+    eq = F(3, 4)
+    distinct = {"state": {"pa": F(3, 2), "pb": F(-9, 4), "pc": F(4)}, "control": {"ua": F(-3, 2), "ub": F(3)}, "cal": {"ka": F(1, 2), "kb": F(-2)}}
+    # one role carries distinct values at a time (the others hold one value throughout, so that only that role's binding shows), then all
+    points = []
+    for role, cls in (("state", "State"), ("control", "Control"), ("cal", "Calibration"), (None, "all")):
+        pt = {"dt": F(1, 4)}
+        for r in ("state", "control", "cal"):
+            pt[r] = dict(distinct[r]) if role in (None, r) else {k: eq for k in distinct[r]}
+        points.append((cls, pt))
+    Ls0 = sorted(s.name for s in d0.state)
+    Pn = eh.spd(prng, len(Ls0))
+    P0 = {(a, b): Pn[i][j] for i, a in enumerate(Ls0) for j, b in enumerate(Ls0)}
+    z = {"simple": {"r2": F(1, 2), "r10": F(-5, 4)}}
+
+    def exact_model(pt):
+        sub = {dt: Q(pt["dt"].numerator, pt["dt"].denominator)}
+        for r in ("state", "control", "cal"):
+            for k, v in pt[r].items():
+                sub[Symbol(k)] = Q(v.numerator, v.denominator)
+        return {s.name: F(int(sympy.sympify(e).xreplace(sub).p), int(sympy.sympify(e).xreplace(sub).q)) for s, e in d0.state_model.items()}
+
+    jobs, metas = [], []
+    for i, (label, m) in enumerate(renamings):
+        d = d0.renamed(m); d._kind = "ekf"
+        case = {"stream": "numbered-names-cpp", "naming": label, "renaming": m, "def": d.describe()}
+        try:
+            g = cppgen.generate(d, {m[k]: v for k, v in process.items()}, sensor, {m[k]: v for k, v in distinct["cal"].items()}, ctx.scratch,
+                                f"nn{i}", filtering=None, rng=prng, container="list" if i % 2 else "set")
+        except Exception as e:
+            ctx.case(case, True); ctx.count("stream=numbered-names-cpp")
+            ctx.fail(f"cpp-generate-raises:{fk.exc_kind(e)}", f"C++ generation over the {label} naming raises {e!r}"[:300], case)
+            continue
+        jobs.append((g, d, None)); metas.append((label, m, d, case))
+    built = cppgen.build_many(jobs) if jobs else []
+    results = {}
+    for (label, m, d, case0), (exe, err) in zip(metas, built):
+        names = sorted(m[x] for x in Ls0)
+        permuted = [m[x] for x in Ls0] != names
+        if exe is None:
+            ctx.case(case0, True); ctx.count("stream=numbered-names-cpp")
+            ctx.fail("generated-cpp-does-not-compile", (err or "")[-400:], case0); continue
+        # (1) the slot a value given by name is stored in is the slot the accessor of that name reads
+        case = dict(case0, what="layout")
+        ctx.case(case, True); ctx.count("stream=numbered-names-cpp"); ctx.count("numbered_names_layout")
+        try:
+            lay = cppgen.run_exe(exe, ["layout"])[0]
+            bad = [s for s in names if lay.get(f"stateopt.{s}") != lay.get(f"state.{s}") or f"state.{s}" not in lay]
+        except Exception as e:
+            ctx.fail("generated-cpp-crashes", repr(e)[:300], case); continue
+        if bad:
+            ctx.fail("named-ctor:cpp:layout", f"{label} naming: StateOptions.{bad[0]} = 1 is stored in entry {lay.get('stateopt.' + bad[0])}, the accessor "
+                     f"State::{bad[0]}() reads entry {lay.get('state.' + bad[0])}", case)
+        # (2) the model value at points that vary one role at a time, against exact arithmetic on the definition
+        for cls, pt in points:
+            pt2 = {"dt": pt["dt"], **{r: {m[k]: v for k, v in pt[r].items()} for r in ("state", "control", "cal")}}
+            P2 = {(m[a], m[b]): v for (a, b), v in P0.items()}
+            case = dict(case0, what=f"values distinct in: {cls}", point=eh.point_json(pt2))
+            ctx.case(case, nontrivial=permuted or label != "letters"); ctx.count("stream=numbered-names-cpp"); ctx.count(f"numbered_names_point={cls}")
+            try:
+                out = cpp_named(d, exe, pt2, P2, z)
+            except ConstAccessorMismatch as e:
+                ctx.fail("cpp-const-accessor", f"generated C++: a value read by name through a const reference is not the value stored under that name: {e}", case)
+                break
+            except Exception as e:
+                ctx.fail("generated-cpp-crashes", repr(e)[:300], case); break
+            want = exact_model(pt)
+            scl = max(abs(float(v)) for v in want.values())
+            hit = False
+            for what in ("model", "predict_state"):
+                badk = [k for k, v in want.items() if not core.close(out[what].get(m[k], float("nan")), v, scale=scl)]
+                if badk:
+                    k = badk[0]
+                    ctx.fail(f"named-ctor:cpp:{cls}", f"{label} naming, {what}[{m[k]}]: the generated C++ gives {out[what].get(m[k])!r} for inputs handed over by "
+                             f"name through the Options constructors; the definition evaluated exactly gives {float(want[k])!r}", case)
+                    hit = True; break
+            if cls == "all" and not hit:
+                results[label] = (m, out, case)
+    # (3) every named output of predict and update agrees with the letters-only original
+    if "letters" in results:
+        _, base, _ = results["letters"]
+        for label, (m, tw, case) in results.items():
+            if label == "letters":
+                continue
+            for what, vals in base.items():
+                scl = max(abs(x) for x in vals.values())
+                for key, v in vals.items():
+                    k2 = (m[key[0]], m[key[1]]) if isinstance(key, tuple) else m[key]
+                    if not core.close(tw[what].get(k2, float("nan")), v, scale=scl):
+                        ctx.fail(f"numbered-names:cpp:{what.split(':')[0]}", f"C++ {what}[{key}] = {v!r} under the letters-only naming but the {label} "
+                                 f"twin gives [{k2}] = {tw[what].get(k2)!r}", case)
+                        break
+
+
 def run(ctx):
     audit = core.lean_audit("C13")
     drv = core.Driver()
@@ -500,6 +621,7 @@ def run(ctx):
     # fixed streams (no draws from ctx.rng)
     from_data_same_count(ctx, drv, pending)
     fit_declaration_order(ctx)
+    numbered_names_cpp(ctx)
     ans = drv.run()
     for kind, idx, got, info in pending:
         a = ans[idx]
